@@ -89,7 +89,7 @@ template <class T> void int_case(std::string const &name, i128 b, i128 e)
   fcppt::int_range<T> const r = fcppt::make_int_range(V::make(static_cast<R>(b)), V::make(static_cast<R>(e)));
   c18p::opts o;
   o.value_reference = true; // int_iterator_decl.hpp: `Int dereference() const`, reference type Int
-  c18p::check(name, r.begin(), r.end(), model, [](T const &v) { return static_cast<i128>(V::get(v)); }, o);
+  c18p::check_fresh(name, [&r] { return r.begin(); }, [&r] { return r.end(); }, model, [](T const &v) { return static_cast<i128>(V::get(v)); }, o);
 }
 
 template <class T> void int_protocol(bool narrow)
@@ -102,8 +102,7 @@ template <class T> void int_protocol(bool narrow)
   {
     vrt::nontrivial(true);
     // int_iterator_decl.hpp: iterator::types<int_iterator<Int>, Int, Int, Int, std::input_iterator_tag>
-    check_traits<fcppt::int_iterator<T>, T, T, T, std::input_iterator_tag>(tn);
-    static_assert(std::is_same_v<typename fcppt::int_range<T>::iterator, fcppt::int_iterator<T>>);
+    check_traits<decltype(std::declval<fcppt::int_range<T> const &>().begin()), T, T, T, std::input_iterator_tag>(tn);
   }
   int const maxlen = vrt::thorough() ? 9 : 6;
   std::vector<i128> starts;
@@ -170,13 +169,12 @@ template <class E> void enum_protocol(char const *ename)
   static std::string const name = std::string("enum::range<") + ename + ">";
   static std::string const tn = std::string("enum::iterator<") + ename + ">";
   using U = std::underlying_type_t<E>;
-  using It = fcppt::enum_::iterator<E>;
+  using It = decltype(std::declval<fcppt::enum_::range<E> const &>().begin());
   if (vrt::begin(tn.c_str(), 0))
   {
     vrt::nontrivial(true);
     // enum/iterator_decl.hpp: types<iterator<Enum>, Enum, Enum, make_signed_t<size_type<Enum>>, input_iterator_tag>
     check_traits<It, E, E, std::make_signed_t<fcppt::enum_::size_type<E>>, std::input_iterator_tag>(tn);
-    static_assert(std::is_same_v<typename fcppt::enum_::range<E>::iterator, It>);
   }
   long const size = static_cast<long>(static_cast<U>(E::fcppt_maximum)) + 1;
   long const maxlen = 9;
@@ -194,15 +192,15 @@ template <class E> void enum_protocol(char const *ename)
       for (long i = s; i <= e; ++i)
         model.push_back(i);
       fcppt::enum_::range<E> const r = fcppt::enum_::make_range_start_end(static_cast<E>(static_cast<U>(s)), static_cast<E>(static_cast<U>(e)));
-      c18p::check(name, r.begin(), r.end(), model, keyof, o);
+      c18p::check_fresh(name, [&r] { return r.begin(); }, [&r] { return r.end(); }, model, keyof, o);
       if (e == size - 1)
       {
         fcppt::enum_::range<E> const r2 = fcppt::enum_::make_range_start(static_cast<E>(static_cast<U>(s)));
-        c18p::check(name + ":start", r2.begin(), r2.end(), model, keyof, o);
+        c18p::check_fresh(name + ":start", [&r2] { return r2.begin(); }, [&r2] { return r2.end(); }, model, keyof, o);
         if (s == 0)
         {
           fcppt::enum_::range<E> const r3 = fcppt::enum_::make_range<E>();
-          c18p::check(name + ":whole", r3.begin(), r3.end(), model, keyof, o);
+          c18p::check_fresh(name + ":whole", [&r3] { return r3.begin(); }, [&r3] { return r3.end(); }, model, keyof, o);
         }
       }
     }
@@ -388,9 +386,15 @@ template <class Cont> void range_protocol(char const *cname)
     {
       vrt::nontrivial(len >= 2);
       auto const r = fcppt::iterator::adapt_range(cont);
-      c18p::check(n_adapt, r.begin(), r.end(), all, keyof, c18p::opts{});
       auto const rc = fcppt::iterator::adapt_range(ccont);
-      c18p::check(n_adapt + ":const", rc.begin(), rc.end(), all, keyof, c18p::opts{});
+      // "Turns a range into an iterator::range": the iterators are those of the given container
+      bool const same = r.begin() == cont.begin() && r.end() == cont.end() && rc.begin() == ccont.begin() && rc.end() == ccont.end();
+      VRT_CHECK(same, n_adapt + ":proto:adapted_iterators", "adapted range does not hold the container's begin()/end()");
+      if (same)
+      {
+        c18p::check(n_adapt, r.begin(), r.end(), all, keyof, c18p::opts{});
+        c18p::check(n_adapt + ":const", rc.begin(), rc.end(), all, keyof, c18p::opts{});
+      }
     }
   }
 }
@@ -413,9 +417,14 @@ void adapted_fcppt_protocol()
         model.push_back(i);
       fcppt::int_range<int> const ir(b, e);
       auto const r = fcppt::iterator::adapt_range(ir);
-      c18p::check(n_i, r.begin(), r.end(), model, [](int v) { return static_cast<long>(v); }, o);
+      // fresh iterators come from the int_range itself (adapt_range calls ir.begin()/ir.end() anew)
+      c18p::check_fresh(n_i, [&ir] { return fcppt::iterator::adapt_range(ir).begin(); }, [&ir] { return fcppt::iterator::adapt_range(ir).end(); }, model,
+                        [](int v) { return static_cast<long>(v); }, o);
+      VRT_CHECK(r.begin() == ir.begin() && r.end() == ir.end(), n_i + ":proto:adapted_iterators", "adapted range does not hold the range's begin()/end()");
       auto const r2 = fcppt::iterator::make_range(ir.begin(), ir.end());
-      c18p::check(n_i + ":make_range", r2.begin(), r2.end(), model, [](int v) { return static_cast<long>(v); }, o);
+      c18p::check_fresh(n_i + ":make_range", [&ir] { return fcppt::iterator::make_range(ir.begin(), ir.end()).begin(); },
+                        [&ir] { return fcppt::iterator::make_range(ir.begin(), ir.end()).end(); }, model, [](int v) { return static_cast<long>(v); }, o);
+      (void)r2;
     }
   for (int s = 0; s < 9; ++s)
     for (int e = s; e < 9; ++e)
@@ -428,7 +437,9 @@ void adapted_fcppt_protocol()
         model.push_back(i);
       fcppt::enum_::range<eint_9> const er = fcppt::enum_::make_range_start_end(static_cast<eint_9>(s), static_cast<eint_9>(e));
       auto const r = fcppt::iterator::adapt_range(er);
-      c18p::check(n_e, r.begin(), r.end(), model, [](eint_9 v) { return static_cast<long>(static_cast<int>(v)); }, o);
+      c18p::check_fresh(n_e, [&er] { return fcppt::iterator::adapt_range(er).begin(); }, [&er] { return fcppt::iterator::adapt_range(er).end(); }, model,
+                        [](eint_9 v) { return static_cast<long>(static_cast<int>(v)); }, o);
+      (void)r;
     }
 }
 }
